@@ -1,0 +1,14 @@
+//go:build verif
+
+// Contracts for govc (contract-based deductive verification, /verif). Comment-only file:
+// it is compiled only under the build tag "verif" and contains no code.
+
+package condition
+
+// the truth value of a condition on a request (conditions are assumed pure and deterministic)
+//@ spec condMatch(c Condition, req *bfe_basic.Request) bool := abstract
+
+//@ func (Condition).Match
+//@   trusted abstract contract of the condition interface: evaluating a condition writes nothing and is a function of the condition and the request
+//@   modifies nothing
+//@   ensures result0 == condMatch(recv, req)
